@@ -184,6 +184,12 @@ func init() {
 			envFull(r, P, [][3]int{{3, 2, 1}}, 193)
 			envFullV2(r, false, true, false, 1, st2)
 		}
+		r.Phase("score and severity sequences", func() {
+			for lv := 0; lv < 3; lv++ {
+				scoreSequences(r, 3, lv)
+				scoreSequences(r, 2, lv)
+			}
+		})
 		st3.report(r, 3)
 		st2.report(r, 2)
 		r.Set("exhaustive", thorough)
